@@ -299,6 +299,17 @@ PROPS = {
                        "NOT PROVED: that the BFS closure is closed (fuel sufficiency) and order preservation for arbitrary providers (A16: sort induced by one total preorder per package).",
         "assumptions": ["A16: sort_candidates is induced by one per-package key", "favored/locked are not represented by the format; union member order is not represented (hash set)"],
     },
+    "C17": {
+        "facts": ["vector_header_agrees"],
+        "level": "other", "module": "Resolvo.Props.C17", "theorems": ["Resolvo.C17.layout_agree", "Resolvo.C17.roundUp_of_dvd", "Resolvo.C17.frame"],
+        "cpp": [("solve", "conflictfree", {"quick": 800, "thorough": 20000}), ("solve", "lazy", {"quick": 800, "thorough": 20000}),
+                ("solve", "soft", {"quick": 800, "thorough": 20000}), ("containers", "containers", {"quick": 3000, "thorough": 60000})],
+        "families": [],
+        "explanation": "PROVED: Rust and C++ compute the same allocation size, alignment and data offset for every capacity (layout_agree) and list the same header fields (regenerated from both sources); spec-level frame property. "
+                       "CHECKED PER RUN: the refcounted heap model of the header's algorithms keeps its invariant and refines the value-semantics spec on every generated operation sequence (not yet proved). "
+                       "EXPLORED (memory safety cannot be carried by a theorem about a model): a C++ translation unit with a table-driven DependencyProvider, linked against the staticlib built from /repo/cpp with clang++ -fsanitize=address,undefined, solves the generated cases through resolvo::solve and must print exactly the Rust API's solution order / error text; generated container operation sequences (incl. self-assignment and push of an own element) run on the real Vector/String with ASan+UBSan+LeakSanitizer and must show the spec's contents after every operation. Three genuine defects found and repaired. "
+                       "NOT COVERED: problems with Unknown dependencies (not expressible through the C++ interface), the Rust-side Vector/String operations (Miri), ABI/transmute layout beyond the header arithmetic.",
+    },
     "C18": {
         "facts": ['chunk_sizes_positive'],
         "level": "proof", "module": "Resolvo.Props.C18",
